@@ -16,7 +16,7 @@ import (
 
 func init() { mon.Register("C10", buildC10) }
 
-var tmplNames = []string{"a", "B", "name", "x1", "_u", "é", "Ünï", "шляпа", "v-1", "Item"}
+var tmplNames = []string{"a", "B", "name", "x1", "_u", "é", "Ünï", "шляпа", "v-1", "Item", "straße"}
 var tmplTextPool = []string{"Hello", " ", ", ", "\n", "\t", "x", "}", "{", "} }", "'", "\"quoted\"", "it's", "/", "\\", "#", "^", "!", "é", "шляпа", "€", "😀", "𝄞", "￿", "<b>", "&amp;", "1 < 2", "if", "unless", "a.b", "  ", "\r\n", "%", "{ {", "}}"}
 var tmplValuePool = []string{"", "v", "Alice", "1", "0", " ", "a\"b", "back\\slash", "sl/ash", "line\nbreak", "tab\t", "\r", "\b\f", "é", "шляпа", "😀", "{{a}}", "}}", "<x>", "\x01", "true"}
 var tmplPads = []string{"", "", "", " ", "  ", "\t", "\n"}
@@ -32,6 +32,10 @@ func (g *tmplGen) text() string {
 }
 
 func caseVariant(r *mon.Rng, s string) string {
+	if strings.Contains(strings.ToLower(s), "ß") && r.Bool() {
+		// capital sharp s: lower-cases to ß, but has another UTF-8 length
+		return strings.ReplaceAll(strings.ToUpper(strings.ToLower(s)), "ß", "ẞ")
+	}
 	switch r.Intn(4) {
 	case 0:
 		return strings.ToUpper(s)
